@@ -16,7 +16,7 @@ func init() {
 	All["C10"] = c10
 	core.Explanations["C10"] = "Decides necessary structural conditions of 'filters pass exactly the configured set': " +
 		"(R10.1) every forwarding path (two stream parsers, two snapshot workers) consults every filter dimension before it forwards, on all loop paths; (R10.2) the three black/white-list predicates return true exactly on 'black list hit or white list miss' on all of their paths, FilterDb only on membership; in FilterCmdKey a key is kept only after both the prefix and the slot rule accepted it and a rejected key always marks the command as filtered; " +
-		"(R10.3) the projection case sets agree ({del, unlink, mset} in both places), projection happens only under those cases, MSET keeps key/value pairs; (R10.4) the bookkeeping prefixes are blacklisted unconditionally; (R10.5) the slot rule hashes with KeyToSlot; " +
+		"(R10.3) the projection case sets agree ({del, unlink, mset} in both places), projection happens only under those cases, MSET keeps key/value pairs; (R10.4) the bookkeeping prefixes are blacklisted unconditionally; (R10.5) the slot rule hashes with KeyToSlot, which is HASH_SLOT (R11.1-R11.5, shared with C11); " +
 		"(R10.6) the slot list is bisected, so insertion must keep it disjoint and sorted (reads neighbours' bounds, stores a rebuilt list, derives the fast-reject bounds from the stored list's first and last element); (R10.7) key-position tables are lower-case, 1-based, step >= 1, and disjoint. Not decided: exact set membership for every configuration as a value statement."
 }
 
@@ -39,6 +39,11 @@ func c10(w *core.World, r *core.Report) {
 	ruleRangeList(w, r)
 	r.Rule("R10.7", "key-position tables well-formed", 3)
 	ruleKeyTables(w, r)
+
+	// The slot rule passes "exactly the configured set" only if the slot it
+	// computes is the cluster's: the slot-function rules of C11 are obligations
+	// of the slot filter too.
+	c11(w, r)
 }
 
 // ---------------------------------------------------------------- R10.1
